@@ -82,6 +82,8 @@ package pcapgo
 //@ func (w *NgWriter) WritePacketWithOptions(ci gopacket.CaptureInfo, data []byte, opts NgPacketOptions) error
 //@   props C14
 //@   at writeOptions 0: assert ghost(wrote) == old(ghost(wrote)) + 28 + len(data) + (4 - len(data) % 4) % 4
+//@   at Write 0: assert len(arg1) == 28 && le32(arg1, 0) == 6 && le32(arg1, 4) == length
+//@   at Write 3: assert len(arg1) == 4 && le32(arg1, 0) == length
 
 // ---- classic pcap reader: the result clause of the statement (C15) and the record header codec (C14) ---------
 
